@@ -23,7 +23,7 @@ VERIF = os.path.dirname(os.path.dirname(os.path.abspath(__file__)))
 REPO = os.environ.get("VERIF_REPO", "/repo")
 SPEC = os.path.join(VERIF, "spec")
 HARNESS = os.path.join(VERIF, "harness")
-EVID = os.path.join(VERIF, "evidence")
+EVID = os.environ.get("VERIF_EVID", os.path.join(VERIF, "evidence"))   # seed runs redirect it, committed evidence stays untouched
 KNOWN = os.path.join(VERIF, "KNOWN_FINDINGS.txt")
 
 # the default go (1.23) switches to the cached go1.25.0 toolchain that go.mod asks for: needs GOTOOLCHAIN=auto and GOSUMDB left alone
